@@ -62,7 +62,7 @@ def generate(seed, tier, k):
             if fk == "Mixed3axi" and a["mode"] == 3 and r.random() < 0.9:
                 a["mode"] = 2
             nblocks = {1: 3, 2: 6, 3: 9}[a["mode"]]
-            a["absent"] = sorted(r.sample(range(nblocks), r.choice([0, 0, 1, 2]))) if fk == "Mixed3" or fk == "Mixed3ps" else []
+            a["absent"] = sorted(r.sample(range(nblocks), r.choice([0, 0, 1, 2])))
             a["block"] = r.random() < 0.8
         elif fk == "Axi":
             a["grad_v"] = True
